@@ -771,7 +771,7 @@ func run(c Case, ev *pbt.Ev) error {
 }
 
 func TestProp_Store(t *testing.T) {
-	pbt.Run(t, pbt.Options{Prop: "C16", Name: "Store", Quick: 1500, Thorough: 40000, Current: true, Timeout: 120 * time.Second,
+	pbt.Run(t, pbt.Options{Prop: "C16", Name: "Store", Quick: 1500, Thorough: 7500, Current: true, Timeout: 120 * time.Second,
 		Rule: "rapid: 1-3 images (1-4 layers each: eStargz, zstd:chunked or plain gzip; optionally behind an image index; layers optionally shared between images) served by an in-memory registry; " +
 			"3-24 operations on the store's FUSE nodes (root -> base64(ref) -> digest -> diff|blob|info lookups, single or racing; use = create 'use'; release = rmdir), with digests that are TOC digests, blob digests, TOC digests of other images or random, releases without a use, and registry faults (status 500 / connection error per blob, registry down); " +
 			"oracle: a model of uses per (image, digest) and of which layers may carry a recorded failed resolution; after each step: lookup result (valid digests must be served with the layer's files / blob bytes, anything else refused), use counts, the held layer object while uses are outstanding, reference-pool count, and after the last release of an image that its layers and recorded resolutions are gone. " +
